@@ -18,7 +18,13 @@
 
    EarlyDel = TRUE is the code; FALSE removes site (1) (gen_witness.cfg: TLC
    must find the counterexample, which the harness drives on a real client
-   through natural gates).  Adds are the atomic Add of ChanWriter: the window
+   through natural gates).
+   KNOWN FINDING (C13, `resub:inflight-broadcast-into-new-subscription`): with SubSplit = TRUE and a resubscribe
+   (resub_inflight_witness.cfg, expected violation of GenBracket on the code AS IT IS): a broadcast that passed the
+   subscribed check adds after site (1) - refused by the closed writer, it looks the writer up again and buffers into a
+   fresh one - the channel is subscribed again before site (2), which is therefore skipped; the push of generation g is
+   flushed inside generation g+1.  Without a resubscribe the split model is clean (gen_split_noresub.cfg).
+   Adds are the atomic Add of ChanWriter (unless SubSplit): the window
    between the subscribed check and the Add is the other witness (race.cfg).  *)
 EXTENDS ChanWriter
 
